@@ -5,8 +5,8 @@ import (
 	"fmt"
 	"os"
 	"reflect"
-	"strconv"
 	"sort"
+	"strconv"
 	"strings"
 
 	"github.com/openconfig/goyang/pkg/yang"
@@ -481,7 +481,6 @@ func desc(e *yang.Entry) string {
 	return fmt.Sprintf("%s %q at %s", kindOf(e), e.Name, e.Path())
 }
 
-
 // ---- checks -------------------------------------------------------------------------
 
 func designRun(r *core.Run, prop string, cfgs []string, col *core.Collector) {
@@ -676,5 +675,7 @@ func init() {
 		r.Assumptions = []string{"a submodule's references to definitions in other parts go through its own includes or are placed in the module (RFC 6020 and 7950 agree there)"}
 		C13Registry(r)
 		designRun(r, "C13", tierCfgs(r, []string{"split"}, nil), nil)
+		// an import without revision-date follows the latest revision loaded, also when it arrives after a run
+		SessionHistories(r, "C13", "bb-r2")
 	}
 }
